@@ -188,7 +188,14 @@ func (cfg *config) prepareDirs(ctx context.Context) error {
 
 	// Create the directory for this run.
 	thisDataDir := cfg.dataDir
+	// The 'latest' symlink is created next to the run directory, and
+	// a relative symlink is resolved from the directory that contains
+	// it: its target is thus the name of the run directory inside
+	// dataDir, not thisDataDir (which is relative to the current
+	// directory when -o is).
+	linkTarget := "."
 	if cfg.subDir != "" && cfg.subDir != "." {
+		linkTarget = cfg.subDir
 		thisDataDir = filepath.Join(cfg.dataDir, cfg.subDir)
 		if err := os.Mkdir(thisDataDir, 0755); err != nil {
 			return errors.Wrapf(err, "mkdir")
@@ -224,7 +231,7 @@ func (cfg *config) prepareDirs(ctx context.Context) error {
 	if err := os.Remove(alias); err != nil && !os.IsNotExist(err) {
 		return err
 	}
-	if err := os.Symlink(thisDataDir, alias); err != nil {
+	if err := os.Symlink(linkTarget, alias); err != nil {
 		log.Warningf(ctx, "unable to create 'latest' symlink: %v", err)
 	}
 
